@@ -82,6 +82,40 @@ mod verif_thread {
         std::mem::forget(result);
     }
 
+    /// C07.thread_fn.publishes_then_wakes [Kb: no thread-locals, 3 tasks]: the closure runs exactly once; afterwards its value
+    /// is published in the join slot, the registered joiner (and nobody else) is Runnable and the registration is consumed;
+    /// without detached tasks to truncate there is no choice point on the exit path (so a joiner cannot observe a finished
+    /// closure without its result).
+    #[kani::proof]
+    #[kani::solver(minisat)]
+    #[kani::unwind(6)]
+    #[kani::stub(crate::runtime::thread::continuation::switch, verif_switch)]
+    #[kani::stub(std::hash::RandomState::new, fixed_random_state)]
+    #[kani::stub(crate::backtrace_enabled, stub_false)]
+    fn c07_thread_fn_publishes_then_wakes() {
+        let mut store = new_store();
+        use_store(&mut store);
+        // task 2 is the exiting thread, task 1 is blocked in join() on it, task 0 is blocked on something else
+        let mut st = state_with([BLOCKED, BLOCKED, TaskState::Runnable], 2, Rc::new(RefCell::new(SpecSched::new())));
+        crate::runtime::execution::verif_exec::set_task_waiter(&mut st, 2, Some(1));
+        let result: Arc<Mutex<Option<std::thread::Result<u8>>>> = Arc::new(Mutex::new(None));
+        let r2 = result.clone();
+        let switch_before_exit: bool = kani::any();
+        let ((), cell) = run_in(st, move || {
+            thread_fn(|| { log(0); 42u8 }, switch_before_exit, r2);
+        });
+        unsafe {
+            assert!(LOG_LEN == 1 && LOG[0] == 0);
+        }
+        assert!(matches!(*result.lock().unwrap(), Some(Ok(42))));
+        assert!(task_state(&cell, 1) == TaskState::Runnable && task_state(&cell, 0) == BLOCKED);
+        assert!(cell.borrow().get(TaskId::from(2)).verif_waiter().is_none());
+        assert!(crate::verif_support::switches() == 0);
+        kani::cover!(switch_before_exit);
+        kani::cover!(!switch_before_exit);
+        std::mem::forget(result);
+    }
+
     /// C07.storage.order_and_tombstones [Kb: 2 slots]: pop returns the slots in initialisation order, each once; a popped
     /// slot stays as a tombstone (get => Some(Err)); an unknown key is None.
     #[kani::proof]
